@@ -208,6 +208,99 @@ where
     v
 }
 
+// ---- iterator SHAPES for every place where an iterator is handed to the crate (Sum) ----
+/// The same logical sequence of items is handed to `Sum::sum` through iterators of different
+/// SHAPE; every shape must give the same answer as the exact-size Vec iterator (shape 0).
+/// HONEST shapes (their size_hint is a true statement about the remaining items):
+///   0 vec::IntoIter (n, Some(n))        1 filter(|_| true) (0, Some(n))      2 hint (0, None)
+///   3 from_fn (0, None)                 4 chain(vec half, filtered half)     5 flat_map(Some) (0, None)
+///   6 take_while / skip_while           7 Box<dyn Iterator> over scan        8 hint (n, None)
+///   9 not fused: after its first None the iterator would yield one more item (a consumer must
+///     stop at the first None, as std's sums over plain numbers do)
+///  10 by `&mut iterator` (Sum::sum(iter.by_ref())) over a filter_map
+/// LYING shapes (size_hint is safe code and may be wrong; the items yielded are still the
+/// logical sequence, and summation has no reason to consult the hint at all):
+///  11 (0, Some(0))   12 (usize::MAX, None)   13 (1, Some(1))   14 (n + 1, Some(n + 1))
+///  15 (usize::MAX, Some(usize::MAX))
+pub const SUM_SHAPES: u8 = 16;
+
+pub struct Hinted<I> {
+    inner: I,
+    hint: (usize, Option<usize>),
+}
+impl<I: Iterator> Iterator for Hinted<I> {
+    type Item = I::Item;
+    fn next(&mut self) -> Option<I::Item> {
+        self.inner.next()
+    }
+    fn size_hint(&self) -> (usize, Option<usize>) {
+        self.hint
+    }
+}
+
+/// yields `items`, then None ONCE, then `extra` (an iterator need not be fused)
+pub struct NotFused<S> {
+    items: std::vec::IntoIter<S>,
+    extra: Option<S>,
+    said_none: bool,
+}
+impl<S> Iterator for NotFused<S> {
+    type Item = S;
+    fn next(&mut self) -> Option<S> {
+        if self.said_none {
+            return self.extra.take();
+        }
+        let x = self.items.next();
+        if x.is_none() {
+            self.said_none = true;
+        }
+        x
+    }
+}
+
+pub fn sum_shaped<S: std::iter::Sum<S> + Clone>(shape: u8, items: Vec<S>) -> S {
+    let n = items.len();
+    let hinted = |items: Vec<S>, hint| Hinted { inner: items.into_iter(), hint };
+    match shape {
+        0 => items.into_iter().sum(),
+        1 => items.into_iter().filter(|_| true).sum(),
+        2 => hinted(items, (0, None)).sum(),
+        3 => {
+            let mut it = items.into_iter();
+            std::iter::from_fn(move || it.next()).sum()
+        }
+        4 => {
+            let mut first = items;
+            let second = first.split_off(n / 2);
+            first.into_iter().chain(second.into_iter().filter(|_| true)).sum()
+        }
+        5 => items.into_iter().flat_map(Some).sum(),
+        6 => items.into_iter().take_while(|_| true).skip_while(|_| false).sum(),
+        7 => {
+            let it: Box<dyn Iterator<Item = S>> = Box::new(items.into_iter().scan((), |_, x| Some(x)));
+            it.sum()
+        }
+        8 => hinted(items, (n, None)).sum(),
+        9 => {
+            let extra = items.first().cloned();
+            NotFused { items: items.into_iter(), extra, said_none: false }.sum()
+        }
+        10 => {
+            let mut it = items.into_iter().filter_map(Some);
+            S::sum(it.by_ref())
+        }
+        11 => hinted(items, (0, Some(0))).sum(),
+        12 => hinted(items, (usize::MAX, None)).sum(),
+        13 => hinted(items, (1, Some(1))).sum(),
+        14 => hinted(items, (n + 1, Some(n + 1))).sum(),
+        _ => hinted(items, (usize::MAX, Some(usize::MAX))).sum(),
+    }
+}
+
+pub fn has_sum<T>(prog: &[Ins<T>]) -> bool {
+    prog.iter().any(|i| matches!(i, Ins::Sum(_)))
+}
+
 // ---- the Record interpreter ----
 /// mode 0..=3: every operator through ownership form `mode` (0 ref(op)ref, 1 value(op)value,
 /// 2 value(op)ref, 3 ref(op)value; unary forms: mode % 2); mode 4: the form varies per instruction;
@@ -356,6 +449,20 @@ pub fn run_records<'a, T: Num>(
 where
     for<'t> &'t T: RealRef<T>,
 {
+    run_records_shaped::<T>(list, prog, mode, 0)
+}
+
+/// `shape`: the iterator shape (see `sum_shaped`) through which every Sum instruction hands its
+/// items to `impl Sum for Record`
+pub fn run_records_shaped<'a, T: Num>(
+    list: &'a WengertList<T>,
+    prog: &[Ins<T>],
+    mode: u8,
+    shape: u8,
+) -> Result<Vec<Record<'a, T>>, i64>
+where
+    for<'t> &'t T: RealRef<T>,
+{
     let mut nodes: Vec<Record<'a, T>> = Vec::with_capacity(prog.len());
     for (k, ins) in prog.iter().enumerate() {
         let f = form_of(mode, k);
@@ -405,7 +512,7 @@ where
                     }
                     total
                 } else {
-                    l.iter().map(|&a| nodes[a].clone()).sum()
+                    sum_shaped::<Record<'a, T>>(shape, l.iter().map(|&a| nodes[a].clone()).collect())
                 }
             }
             Ins::User1(g, a) => {
@@ -534,6 +641,14 @@ pub fn run_traces<T: Num>(prog: &[Ins<T>], seed: usize, seeded: Trace<T>, mode: 
 where
     for<'t> &'t T: RealRef<T>,
 {
+    run_traces_shaped::<T>(prog, seed, seeded, mode, 0)
+}
+
+/// `shape`: the iterator shape (see `sum_shaped`) handed to `impl Sum for Trace`
+pub fn run_traces_shaped<T: Num>(prog: &[Ins<T>], seed: usize, seeded: Trace<T>, mode: u8, shape: u8) -> Vec<Trace<T>>
+where
+    for<'t> &'t T: RealRef<T>,
+{
     let mut nodes: Vec<Trace<T>> = Vec::with_capacity(prog.len());
     let other = mode == 5;
     for (k, ins) in prog.iter().enumerate() {
@@ -572,7 +687,7 @@ where
                     }
                     total
                 } else {
-                    l.iter().map(|&a| nodes[a].clone()).sum()
+                    sum_shaped::<Trace<T>>(shape, l.iter().map(|&a| nodes[a].clone()).collect())
                 }
             }
             Ins::User1(g, a) => {
@@ -654,9 +769,13 @@ pub fn float_oracle(prog: &[Ins<f64>], outs: &[usize], seeds: &[usize]) -> (bool
     let dom = in_pole_free_domain(prog, &plain);
     // Record, ownership forms 0..=4
     let mut rec_canon: Option<Vec<(u64, bool, Vec<u64>)>> = None;
-    for mode in 0..5u8 {
+    // modes 0..5 with the exact-size Vec iterator; then, if the program sums, every other iterator
+    // SHAPE (in ownership form shape % 5)
+    let shapes: u8 = if has_sum(prog) { SUM_SHAPES } else { 1 };
+    let runs: Vec<(u8, u8)> = (0..5u8).map(|m| (m, 0)).chain((1..shapes).map(|s| (s % 5, s))).collect();
+    for &(mode, shape) in &runs {
         let list = WengertList::<f64>::new();
-        let Ok(nodes) = run_records::<f64>(&list, prog, mode) else { return (false, false, false) };
+        let Ok(nodes) = run_records_shaped::<f64>(&list, prog, mode, shape) else { return (false, false, false) };
         if !nodes.iter().zip(plain.iter()).zip(dom.iter()).all(|((r, p), d)| !*d || same_value(r.number, *p)) {
             values = false;
         }
@@ -686,8 +805,8 @@ pub fn float_oracle(prog: &[Ins<f64>], outs: &[usize], seeds: &[usize]) -> (bool
     for &seed in seeds {
         let Some(Ins::Var(x0)) = prog.get(seed) else { return (false, false, false) };
         let mut canon: Option<Vec<(f64, f64)>> = None;
-        for mode in 0..5u8 {
-            let nodes = run_traces::<f64>(prog, seed, Trace::variable(*x0), mode);
+        for &(mode, shape) in &runs {
+            let nodes = run_traces_shaped::<f64>(prog, seed, Trace::variable(*x0), mode, shape);
             if !nodes.iter().zip(plain.iter()).zip(dom.iter()).all(|((t, p), d)| !*d || same_value(t.number, *p)) {
                 values = false;
             }
